@@ -65,12 +65,36 @@ def gen_value(v):
     return ("L", typed(v[1]))
 
 
+def canon_typed(t):
+    if t[0] == "dict":
+        return ("dict", tuple(sorted((k, canon_typed(v)) for k, v in t[1])))
+    if t[0] == "list":
+        return ("list", tuple(canon_typed(x) for x in t[1]))
+    return t
+
+
+def as_typed(p):
+    if p[0] == "T":
+        return ("dict", tuple(sorted((k, as_typed(v)) for k, v in p[1])))
+    if p[0] == "A":
+        return ("list", tuple(as_typed(x) for x in p[1]))
+    return canon_typed(p[1])
+
+
 def unordered(p):
+    """Canonical form for comparing values as mappings: tables compared without key order; an
+    [[array-of-tables]] and an inline array of inline tables with the same content are the same
+    value (since baead4f load_config_toml returns plain dicts and lists)."""
     if p[0] == "T":
         return ("T", tuple(sorted((k, unordered(v)) for k, v in p[1])))
-    if p[0] == "A":
-        return ("A", tuple(unordered(e) for e in p[1]))
-    return p
+    return ("L", as_typed(p))
+
+
+def key_order(p):
+    """Key order of a table and of its sub-tables (what C20_merge_keys speaks about)."""
+    if p[0] == "T":
+        return tuple((k, key_order(v)) for k, v in p[1])
+    return None
 
 
 def overlay_spec(d, u):
@@ -183,12 +207,20 @@ class Lab:
     def __init__(self):
         self.keys = {}
         self.leaves = {}
+        self.rkeys = {}
+        self.rleaves = {}
 
     def key(self, k):
-        return self.keys.setdefault(k, len(self.keys) + 1)
+        if k not in self.keys:
+            self.keys[k] = len(self.keys) + 1
+            self.rkeys[self.keys[k]] = k
+        return self.keys[k]
 
     def leaf(self, t):
-        return self.leaves.setdefault(t, len(self.leaves) + 1)
+        if t not in self.leaves:
+            self.leaves[t] = len(self.leaves) + 1
+            self.rleaves[self.leaves[t]] = t
+        return self.leaves[t]
 
     def wire(self, p):
         if p[0] == "T":
@@ -196,6 +228,13 @@ class Lab:
         if p[0] == "A":
             return [2] + [self.wire(e) for e in p[1]]
         return [0, self.leaf(p[1])]
+
+    def unwire(self, w):
+        if w[0] == 1:
+            return ("T", [(self.rkeys[e[0]], self.unwire(e[1])) for e in w[1:]])
+        if w[0] == 2:
+            return ("A", [self.unwire(e) for e in w[1:]])
+        return ("L", self.rleaves[w[1]])
 
     def line(self, m):
         if m[0] == "blank":
@@ -212,14 +251,6 @@ class Lab:
 
     def doc(self, d):
         return [self.line(m) for m in d.model_lines()]
-
-
-def wire_unordered(w):
-    if w[0] == 1:
-        return (1,) + tuple(sorted((e[0], wire_unordered(e[1])) for e in w[1:]))
-    if w[0] == 2:
-        return (2,) + tuple(wire_unordered(e) for e in w[1:])
-    return tuple(w)
 
 
 # ---------------------------------------------------------------------------------------
@@ -264,6 +295,10 @@ class Impl:
             # tomlkit accepted the text but cannot read its own document back (seen: KeyAlreadyPresent
             # from OutOfOrderTableProxy for `[[a.t]] / [b.t] / [a.t.t]`): no expected value exists
             return ("UNREADABLE", type(ex).__name__)
+
+    def parse_unwrapped(self, text):
+        """what load_config_toml hands to _merge: tomlkit.parse(text).unwrap()"""
+        return plain(self.tomlkit.parse(text).unwrap(), self.AoT)
 
     def comment_out(self, text):
         return self.cfg._comment_out_toml(text)
@@ -345,7 +380,7 @@ def main(argv=None):
     impl = Impl()
     ck.prove(extra_targets=["Bridge/BridgeConfig.v"], gen_kernels=["_merge"])
     have_driver = ck.driver()
-    ck.run_witnesses(["w15"])
+    ck.run_witnesses(["w15", "w20"])
 
     lab = Lab()
     wire = []            # driver cases
@@ -407,19 +442,7 @@ def main(argv=None):
                 ck.count("user-file-rejected-by-tomlkit")
             else:
                 want = overlay_spec(pd, pu)
-                if (v1[0] == "EXC" or unordered(v1) != unordered(want)) and user_sets_split_array(d, pu):
-                    ck.failing_input("C20:overlay:split-array-of-tables",
-                                     "the defaults define an [[array]] whose elements are separated by another section "
-                                     "(tomlkit keeps the parent as an OutOfOrderTableProxy) and the user's file sets that "
-                                     f"array: sibling default keys are lost or tomlkit raises; got {v1}, expected {want}",
-                                     dict(replay, got=v1, expected=want))
-                elif v1 == ("EXC", "ValueError") and section_under_inline_table(d, u):
-                    # tomlkit refuses to put a [table]/[[array]] item into an inline table of the defaults
-                    ck.failing_input("C20:overlay:section-into-inline-table",
-                                     "load_config_toml raises ValueError: the defaults define an inline table and the "
-                                     "user's file has a [table]/[[array]] section below it (tomlkit: 'Inline tables "
-                                     f"cannot contain a table'); expected {want}", dict(replay, got=v1, expected=want))
-                elif v1[0] == "EXC" or unordered(v1) != unordered(want):
+                if v1[0] == "EXC" or unordered(v1) != unordered(want):
                     ck.failing_input("C20:overlay", f"effective configuration is not defaults overlaid by the user's file: "
                                      f"got {v1}, expected {want}", dict(replay, got=v1, expected=want))
                 shared = any(k in dict(pd[1]) for k, _ in pu[1])
@@ -449,8 +472,10 @@ def main(argv=None):
 
         # ---- the model
         if pd[0] != "EXC" and pu is not None and pu[0] != "EXC":
-            ask([0, lab.wire(pd), lab.wire(pu)], "merge", (v1, pd, pu, replay, section_under_inline_table(d, u),
-                                                           user_sets_split_array(d, pu)))
+            # _merge's own arguments: both documents unwrapped to plain dicts (key order as unwrap gives it)
+            ad = impl.parse_unwrapped(d.text)
+            au = impl.parse_unwrapped(u.text.replace("\r\n", "\n").replace("\r", "\n"))
+            ask([0, lab.wire(ad), lab.wire(au)], "merge", (v1, replay))
         subset = d.one_line and (u is None or u.one_line)
         ask([2, lab.doc(d), [] if u is None else [lab.doc(u)]], "load",
             (d, u, loads, pd, pu, subset, replay))
@@ -468,6 +493,10 @@ def main(argv=None):
         ck.count("default lines=%d" % min(len(d.lines), 20))
         if d.header_under_aot:
             ck.count("default has a [table] under an [[array]]")
+        if section_under_inline_table(d, u):
+            ck.count("condition of the fixed finding section-into-inline-table (baead4f) exercised")
+        if pu is not None and user_sets_split_array(d, pu):
+            ck.count("condition of the fixed finding split-array-of-tables (baead4f) exercised")
         if len(ck.samples) < 5 and u is not None and len(u.lines) > 3 and pu[0] != "EXC" and pd[0] != "EXC":
             ck.sample({"default_config": d.text, "user_file": u.text, "effective": v1})
 
@@ -497,23 +526,17 @@ def main(argv=None):
                 ck.disagreement("wire", "driver could not decode a case", {"case": w})
                 continue
             if kind == "merge":
-                v1, pd, pu, replay, inline_hit, split_hit = payload
-                iw = None if v1[0] == "EXC" else lab.wire(v1)
-                if split_hit and (iw is None or wire_unordered(iw) != wire_unordered(mo)):
-                    ck.count("impl departs from the model on a split [[array]] the user sets (known finding)")
-                elif v1 == ("EXC", "ValueError") and inline_hit:
-                    ck.count("impl raises ValueError (section into inline table): merge not comparable")
-                elif iw is None or wire_unordered(iw) != wire_unordered(mo):
-                    ck.disagreement("merge", f"model _merge and load_config_toml differ: model {mo} impl {iw}",
-                                    dict(replay, case=w, model=mo, impl=iw))
-                elif iw != mo:
-                    # Same mapping, different iteration order: informational only.  The model follows plain
-                    # dict insertion order (what _merge's code says); a tomlkit container iterates in the
-                    # order of the TOML text it would render (plain values before [sections], a value that
-                    # replaces a section is moved), so key *order* is not tied, key *sets* are.
-                    ck.count("merge agrees as a mapping; tomlkit container iterates in another key order")
+                v1, replay = payload
+                mv = lab.unwire(mo)
+                if v1[0] == "EXC" or unordered(v1) != unordered(mv):
+                    ck.disagreement("merge", f"model _merge and load_config_toml differ: model {mv} impl {v1}",
+                                    dict(replay, case=w, model=mo, impl=v1))
+                elif key_order(v1) != key_order(mv):
+                    # load_config_toml returns _merge's plain dict: insertion order is the order C20_merge_keys states
+                    ck.disagreement("merge-key-order", f"same mapping, different key order: model {key_order(mv)} "
+                                    f"impl {key_order(v1)}", dict(replay, case=w, model=mo, impl=v1))
                 else:
-                    ck.count("merge agrees incl. key order")
+                    ck.count("merge agrees incl. key order at every table level")
             elif kind == "lines":
                 doc, kept, ptk, ptc, replay = payload
                 mkept, mparse, mparse_c = mo
@@ -541,15 +564,15 @@ def main(argv=None):
                 d, loads, pd, replay = payload
                 mval, mfile, mtrace = mo
                 for nth, (vn, tn, an) in enumerate(loads[1:], 2):
-                    iw = None if vn[0] == "EXC" else lab.wire(vn)
-                    mw = mval[1] if mval[0] == 0 else None
+                    iw = None if vn[0] == "EXC" else unordered(vn)
+                    mw = unordered(lab.unwire(mval[1])) if mval[0] == 0 else None
                     if iw is None and mw is not None and d.header_under_aot:
                         # the written file repeats a [table] header (one per array element in the defaults);
                         # tomlkit rejects the repeat, the line model's reading re-opens the table.  Only under
                         # the condition of the known finding C20:first-run:header-under-array-of-tables.
                         ck.count("later load raises on a repeated [table] header (known finding); model reading is lenient")
-                    elif (iw is None) != (mw is None) or (iw is not None and wire_unordered(iw) != wire_unordered(mw)):
-                        ck.disagreement("load-again", f"load number {nth} after the first-run write: model {mval} impl {iw}",
+                    elif iw != mw:
+                        ck.disagreement("load-again", f"load number {nth} after the first-run write: model {mval} impl {vn}",
                                         dict(replay, case=w))
                     if trace_of_model(mtrace) != tn:
                         ck.disagreement("io-script", f"file operations of load number {nth} differ: model "
@@ -572,14 +595,10 @@ def main(argv=None):
                             ck.disagreement("io-script", "first-run file differs from the model's comment_out",
                                             dict(replay, case=w, want=want.decode(), got=None if after1 is None else after1[0].decode()))
                 if subset and pd[0] != "EXC" and (pu is None or pu[0] != "EXC"):
-                    iw = None if v1[0] == "EXC" else lab.wire(v1)
-                    mw = mval[1] if mval[0] == 0 else None
-                    if v1 == ("EXC", "ValueError") and section_under_inline_table(d, u):
-                        pass
-                    elif pu is not None and user_sets_split_array(d, pu):
-                        pass
-                    elif iw is None or mw is None or wire_unordered(iw) != wire_unordered(mw):
-                        ck.disagreement("load", f"load on the line model differs: model {mval} impl {iw}",
+                    iw = None if v1[0] == "EXC" else unordered(v1)
+                    mw = unordered(lab.unwire(mval[1])) if mval[0] == 0 else None
+                    if iw is None or mw is None or iw != mw:
+                        ck.disagreement("load", f"load on the line model differs: model {mval} impl {v1}",
                                         dict(replay, case=w))
     ck.assumptions += [
         "tomlkit.parse is an oracle: Section variable `parse` in Model/Config.v load_config; its agreement with the "
